@@ -1026,3 +1026,204 @@ func init() {
 		c.Expect(1, n, "constant estimate returns (plain-transfer shortcut)")
 	})
 }
+
+func init() {
+	extendProp("C44", "The ECDH step of ECIES never multiplies an unchecked point: in GenerateShared the scalar multiplication with the static private key lies behind Curve.IsOnCurve(pub.X, pub.Y) holding (the ephemeral key of a received packet is only parsed, not validated, before it gets here).", []string{"crypto/ecies"}, func(c *Ctx) {
+		c.Rule("DOM/C44.oncurve")
+		f := c.Fn("crypto/ecies", "(*PrivateKey).GenerateShared")
+		if f == nil {
+			return
+		}
+		mul := c.Calls(f, "(crypto/elliptic.Curve).ScalarMult")
+		c.Expect(1, len(mul), "ECDH scalar multiplication in GenerateShared")
+		c.Dom("point-validated", f, mul, "ScalarMult with the private key", GCond("IsOnCurve(pub.X, pub.Y)", f, True(CallRes("(crypto/elliptic.Curve).IsOnCurve"))))
+	})
+
+	extendProp("C45", "A decoded WHOAREYOU owns its challenge data: the ChallengeData stored in the returned packet is a newly made slice (a copy), not a view of the codec's reusable decode buffer, so decoding the next packet cannot change the data the handshake signature and session keys are derived from.", nil, func(c *Ctx) {
+		c.Rule("ALIAS/C45.challenge")
+		v5 := "p2p/discover/v5wire"
+		f := c.Fn(v5, "(*Codec).decodeWhoareyou")
+		if f == nil {
+			return
+		}
+		c.Funcs[f] = true
+		sts := c.Stores(f, v5+".Whoareyou.ChallengeData")
+		c.Expect(1, len(sts), "ChallengeData of the decoded WHOAREYOU")
+		for _, s := range sts {
+			_, isMake := s.Instr.(*ssa.Store).Val.(*ssa.MakeSlice)
+			c.Check(isMake, "own-copy/"+fnName(f), s.Pos(), "ChallengeData is a freshly made slice (filled by copy)", "the decoded WHOAREYOU's ChallengeData aliases the decoder's buffer: the next Decode overwrites it, the handshake built from it is rejected (invalid ID nonce signature)")
+		}
+	})
+
+	extendProp("C46", "The distance comparison covers the whole node id: DistCmp's loop runs while its index is below the id length (32), with no offset that would skip the last word, so ids sharing a long prefix are still ordered by their true XOR distance.", []string{"p2p/enode"}, func(c *Ctx) {
+		c.Rule("SHAPE/C46.distcmp")
+		f := c.Fn("p2p/enode", "DistCmp")
+		if f == nil {
+			return
+		}
+		c.Funcs[f] = true
+		n := 0
+		for _, b := range f.Blocks {
+			iff, ok := b.Instrs[len(b.Instrs)-1].(*ssa.If)
+			if !ok {
+				continue
+			}
+			cmp, ok := iff.Cond.(*ssa.BinOp)
+			if !ok || cmp.Op != token.LSS || !constIs(cmp.Y, 32) {
+				continue
+			}
+			n++
+			_, isPhi := cmp.X.(*ssa.Phi)
+			c.Check(isPhi, "whole-id/"+fnName(f), cmp.Pos(), "the loop index itself is compared with the id length", "DistCmp's loop condition compares an offset index with the id length: the last 8 bytes of the ids are never compared, nodes sharing a 24-byte prefix count as equidistant and closest-node results are wrong")
+		}
+		c.Expect(1, n, "loop condition of DistCmp")
+	})
+
+	extendProp("C48", "Serving a trie-node request never damages the trie it is served from: getNode returns a nil replacement node (with no error) only for a nil or value node; for short and full nodes it hands back the node itself, so a non-existent path cannot make the parent drop a resolved subtree that later paths of the same request need.", []string{"trie"}, func(c *Ctx) {
+		c.Rule("DOM/C48.getnode")
+		f := c.Fn("trie", "(*Trie).getNode")
+		if f == nil {
+			return
+		}
+		c.Funcs[f] = true
+		var targets []Site
+		for _, r := range c.Returns(f) {
+			if r.Instr.Block() == f.Recover {
+				continue
+			}
+			ret := r.Instr.(*ssa.Return)
+			if Nil()(retVal(ret, 1)) && Nil()(retVal(ret, 3)) {
+				targets = append(targets, r)
+			}
+		}
+		c.Expect(2, len(targets), "returns of getNode without replacement node")
+		isValueAssert := func(v ssa.Value) bool {
+			ex, ok := v.(*ssa.Extract)
+			if !ok || ex.Index != 1 {
+				return false
+			}
+			ta, ok := ex.Tuple.(*ssa.TypeAssert)
+			return ok && namedName(ta.AssertedType) == "trie.valueNode"
+		}
+		c.Dom("nil-only-for-leafless", f, targets, "nil replacement returned",
+			GCond("origNode == nil", f, Cmp(Param("origNode"), token.EQL, Nil())),
+			GCond("origNode is a valueNode", f, True(isValueAssert)))
+	})
+
+	extendProp("C49", "A batch that is cut short answers calls only: respondWithError appends an error response for an entry only behind !msg.isNotification().", nil, func(c *Ctx) {
+		c.Rule("DOM/C49.batcherror")
+		r := "rpc"
+		f := c.Fn(r, "(*batchCallBuffer).respondWithError")
+		if f == nil {
+			return
+		}
+		sts := c.Stores(f, r+".batchCallBuffer.resp")
+		c.Expect(1, len(sts), "error responses appended in respondWithError")
+		c.Dom("calls-only", f, sts, "error response appended", GCond("!msg.isNotification()", f, False(CallRes("(*"+r+".jsonrpcMessage).isNotification"))))
+	})
+
+	extendProp("C51", "Signed integers decode over their full range: ReadInteger's native signed arms reject by comparing the 64-bit value with the type's exact minimum and maximum (−2^(N−1) and 2^(N−1)−1), so the minimum value that Pack produces is accepted.", nil, func(c *Ctx) {
+		c.Rule("CHECKSHAPE/C51.signedrange")
+		f := c.Fn("accounts/abi", "ReadInteger")
+		if f == nil {
+			return
+		}
+		c.Funcs[f] = true
+		for _, n := range []struct {
+			name     string
+			min, max int64
+		}{{"int8", -128, 127}, {"int16", -32768, 32767}, {"int32", -2147483648, 2147483647}} {
+			lo := EdgesWhere(f, Cmp(Any(), token.LSS, func(v ssa.Value) bool { return constIs(v, n.min) }))
+			hi := EdgesWhere(f, Cmp(Any(), token.GTR, func(v ssa.Value) bool { return constIs(v, n.max) }))
+			c.Check(len(lo) > 0 && len(hi) > 0, "bounds/"+n.name, f.Pos(), "rejects below the exact minimum and above the exact maximum", "ReadInteger no longer compares "+n.name+" values with the exact bounds of the type: a symmetric magnitude test rejects the minimum value, which Pack encodes")
+		}
+	})
+
+	extendProp("C52", "Unlocking always proves knowledge of the passphrase: every successful return of TimedUnlock lies behind getDecryptedKey with its error tested — there is no path that answers from the unlocked-accounts map alone.", nil, func(c *Ctx) {
+		c.Rule("DOM/C52.unlock")
+		ks := "accounts/keystore"
+		f := c.Fn(ks, "(*KeyStore).TimedUnlock")
+		if f == nil {
+			return
+		}
+		c.Dom("passphrase-checked", f, c.SuccessReturns(f), "unlock reported as successful", GErrChecked("ks.getDecryptedKey(a, passphrase)", c.Calls(f, "(*"+ks+".KeyStore).getDecryptedKey")))
+	})
+}
+
+func init() {
+	extendProp("C47", "The resume-time wipe of uncovered flat state is bounded per task: in pruneStaleState every range deletion that starts at a task's (or storage chunk's) Next cursor ends at that same task's Last key, so progress journalled by other, out-of-order chunks is never deleted.", nil, func(c *Ctx) {
+		c.Rule("SAMEVAL/C47.prunerange")
+		sp := "eth/protocols/snap"
+		f := c.Fn(sp, "(*syncerV2).pruneStaleState")
+		if f == nil {
+			return
+		}
+		c.Funcs[f] = true
+		fieldBase := func(v ssa.Value, fld string) []ssa.Value {
+			var out []ssa.Value
+			seen := map[ssa.Value]bool{}
+			var walk func(v ssa.Value, d int)
+			walk = func(v ssa.Value, d int) {
+				if v == nil || seen[v] || d > 10 {
+					return
+				}
+				seen[v] = true
+				switch x := v.(type) {
+				case *ssa.UnOp:
+					if fa, ok := x.X.(*ssa.FieldAddr); ok {
+						if n := fieldAddrName(fa); strings.HasSuffix(n, "."+fld) {
+							out = append(out, fa.X)
+						}
+					}
+					walk(x.X, d+1)
+				case *ssa.Call:
+					for _, a := range x.Call.Args {
+						walk(a, d+1)
+					}
+				case *ssa.Slice:
+					walk(x.X, d+1)
+				case *ssa.Convert:
+					walk(x.X, d+1)
+				case *ssa.ChangeType:
+					walk(x.X, d+1)
+				case *ssa.Alloc:
+					for _, r := range *x.Referrers() {
+						ia, ok := r.(*ssa.IndexAddr)
+						if !ok {
+							continue
+						}
+						for _, r2 := range *ia.Referrers() {
+							if st, ok := r2.(*ssa.Store); ok && st.Addr == ssa.Value(ia) {
+								walk(st.Val, d+1)
+							}
+						}
+					}
+				}
+				// not through phis: a start that moves along a list of protected keys is a gap wipe,
+				// bounded by the next protected key, not a task window
+			}
+			walk(v, 0)
+			return out
+		}
+		n := 0
+		for _, s := range c.Calls(f, sp+".deleteKeyRange") {
+			a := s.Instr.(*ssa.Call).Call.Args
+			starts := fieldBase(a[1], "Next")
+			if len(starts) == 0 {
+				continue // a range between protected hashes, not a task window
+			}
+			n++
+			ends := fieldBase(a[2], "Last")
+			same := false
+			for _, x := range starts {
+				for _, y := range ends {
+					if sameValue(x, y) {
+						same = true
+					}
+				}
+			}
+			c.Check(same, "window/"+fnName(f), s.Pos(), "the wipe [task.Next, task.Last] uses one task's own bounds", "a range deletion starts at a task's Next cursor but does not end at that task's Last key: slots already downloaded (and journalled) by later chunks are wiped on resume and never requested again, so the sync ends with a state-root mismatch")
+		}
+		c.Expect(2, n, "task-window wipes in pruneStaleState")
+	})
+}
